@@ -34,7 +34,10 @@ def main():
     ok = True
     try:
         demo = os.path.join(wt, '_demo.py')
-        shutil.copy(os.path.join(src, 'demo.py'), demo)
+        txt = open(os.path.join(src, 'demo.py')).read()
+        import re
+        txt = re.sub(r'/tmp/mut-C\d+', wt, txt)        # some demos assert that they import from the author's own worktree
+        open(demo, 'w').write(txt)
         rc0, out0 = sh(f'/venv/bin/python {demo}', cwd=wt, env=env, timeout=900)
         meta['ran'].append({'cmd': 'demo.py on unchanged worktree', 'exit': rc0})
         rca, outa = sh(f'git -C {wt} apply {os.path.join(src, "patch.diff")}')
